@@ -58,6 +58,7 @@ EXPECT = {
     'N1': [('FixtureLint::Fold', 'lon->sincosd')],
     'D3': [('FixtureLint::Newton', 'ssig/sig')],
     'OV1': [('FixtureLint::LengthOk', 'product@')],
+    'NB1': [('FixtureLint::IsNan', 's/t')],
     'CP1': [('FixtureLint::Pad', 'easting/northing')],
     'X7r': [('FixtureShared::HalfFilled', 'alpha_')],
     'K7': [('FixtureRaster::probe', 'B1 filepos column')],
@@ -126,6 +127,9 @@ def run_controls(rules):
         elif r == 'N1':
             from .rules import lint
             res = lint.rule_N1(fx, None)[0]
+        elif r == 'NB1':
+            from .rules import lint
+            res = lint.rule_NB1(fx, None)[0]
         elif r == 'CP1':
             from .rules import lint
             res = lint.rule_CP1(fx, None)[0]
